@@ -2648,23 +2648,39 @@ impl Compiler {
     ) -> Result<(), JsError> {
         self.builder.set_span(decl.span);
 
-        // Create the enum object
+        // Create the enum object, or fetch the one an earlier `enum` declaration of the same
+        // name made in this scope: repeated declarations merge, as `(E || (E = {}))` does
         let enum_obj = self.builder.alloc_register()?;
-        self.builder.emit(Op::CreateObject { dst: enum_obj });
-
-        // Declare the enum variable FIRST so member initializers can reference prior members
-        // via EnumName.MemberName or just MemberName (for const enums)
         let enum_name_idx = self.builder.add_string(decl.id.name.cheap_clone())?;
-        self.builder.emit(Op::DeclareVar {
-            name: enum_name_idx,
-            init: enum_obj,
-            mutable: true, // Enums are mutable like objects
-        });
+        let depth = self.scope_depth;
+        let merging = self
+            .declared_enums
+            .iter()
+            .any(|(n, d)| *d == depth && n.as_str() == decl.id.name.as_str());
+        if merging {
+            self.builder.emit(Op::GetVar {
+                dst: enum_obj,
+                name: enum_name_idx,
+            });
+        } else {
+            self.builder.emit(Op::CreateObject { dst: enum_obj });
 
-        // Track the current numeric value for auto-increment
-        let mut current_value: i64 = 0;
+            // Declare the enum variable FIRST so member initializers can reference prior members
+            // via EnumName.MemberName or just MemberName (for const enums)
+            self.builder.emit(Op::DeclareVar {
+                name: enum_name_idx,
+                init: enum_obj,
+                mutable: true, // Enums are mutable like objects
+            });
+            self.declared_enums
+                .push((decl.id.name.cheap_clone(), depth));
+        }
+
+        // An auto-numbered member is the previous member's value plus one (zero for the first
+        // member of a declaration); the previous value may come from any constant expression
         let value_reg = self.builder.alloc_register()?;
         let key_reg = self.builder.alloc_register()?;
+        let mut first = true;
 
         // Track prior member names for rewriting identifier references
         let mut prior_members: Vec<JsString> = Vec::new();
@@ -2676,22 +2692,24 @@ impl Compiler {
             if let Some(ref init) = member.initializer {
                 // Compile the initializer expression, rewriting references to prior enum members
                 self.compile_enum_init_expression(init, value_reg, enum_obj, &prior_members)?;
-
-                // Try to compute the numeric value for auto-increment
-                // This is a simplified version - in reality, we'd need const evaluation
-                if let crate::ast::Expression::Literal(lit) = init
-                    && let crate::ast::LiteralValue::Number(n) = &lit.value
-                {
-                    current_value = *n as i64 + 1;
-                }
-            } else {
-                // Use auto-increment value
+            } else if first {
                 self.builder.emit(Op::LoadInt {
                     dst: value_reg,
-                    value: current_value as i32,
+                    value: 0,
                 });
-                current_value += 1;
+            } else {
+                // value_reg still holds the previous member's value
+                self.builder.emit(Op::LoadInt {
+                    dst: key_reg,
+                    value: 1,
+                });
+                self.builder.emit(Op::Add {
+                    dst: value_reg,
+                    left: value_reg,
+                    right: key_reg,
+                });
             }
+            first = false;
 
             // Add this member to prior members for subsequent initializers
             prior_members.push(member_name.cheap_clone());
@@ -2703,40 +2721,29 @@ impl Compiler {
                 value: value_reg,
             });
 
-            // Set reverse mapping for numeric values: EnumName[value] = MemberName
-            // Only for numeric values (not string enums)
-            // We need to check if value is numeric at runtime for mixed enums
-            let is_numeric = match &member.initializer {
-                None => true,
-                Some(init) => {
-                    // Check for numeric literal
-                    matches!(
-                        init,
-                        crate::ast::Expression::Literal(lit) if matches!(lit.as_ref(), crate::ast::Literal { value: crate::ast::LiteralValue::Number(_), .. })
-                    ) ||
-                    // Check for unary minus of numeric literal (e.g., -10)
-                    matches!(
-                        init,
-                        crate::ast::Expression::Unary(unary)
-                            if unary.operator == crate::ast::UnaryOp::Minus
-                            && matches!(
-                                unary.argument.as_ref(),
-                                crate::ast::Expression::Literal(lit) if matches!(lit.as_ref(), crate::ast::Literal { value: crate::ast::LiteralValue::Number(_), .. })
-                            )
-                    )
-                }
-            };
-            if is_numeric {
-                // Load the member name as a string value
-                self.builder.emit_load_string(key_reg, member_name)?;
-
-                // Set reverse mapping: EnumName[value] = "MemberName"
-                self.builder.emit(Op::SetProperty {
-                    obj: enum_obj,
-                    key: value_reg,
-                    value: key_reg,
-                });
-            }
+            // Set reverse mapping EnumName[value] = "MemberName" for every member whose value
+            // is a number (literal, constant expression or computed); string members have none
+            self.builder.emit(Op::Typeof {
+                dst: key_reg,
+                src: value_reg,
+            });
+            let number_reg = self.builder.alloc_register()?;
+            self.builder
+                .emit_load_string(number_reg, JsString::from("number"))?;
+            self.builder.emit(Op::StrictEq {
+                dst: key_reg,
+                left: key_reg,
+                right: number_reg,
+            });
+            self.builder.free_register(number_reg);
+            let skip_reverse = self.builder.emit_jump_if_false(key_reg);
+            self.builder.emit_load_string(key_reg, member_name)?;
+            self.builder.emit(Op::SetProperty {
+                obj: enum_obj,
+                key: value_reg,
+                value: key_reg,
+            });
+            self.builder.patch_jump(skip_reverse);
         }
 
         self.builder.free_register(key_reg);
